@@ -241,10 +241,10 @@ FairSpec == Spec /\ Fairness
 (* Property section (C16).                                                 *)
 (***************************************************************************)
 Prefix == SubSeq(ms, 1, j)
-Returned == mpc \in {"done", "panicked"}
 MeasurementsReturned == mpc # "cas" /\ mpc # "spawn" /\ \A k \in Clocks : spc[k] \in {"sending", "done"}
+Returned == mpc \in {"done", "panicked"}      \* the call has come back (a panic unwinds it)
 AllDone ==
-  /\ mpc = "done"
+  /\ Returned
   /\ \A k \in Clocks : spc[k] = "done"
   /\ dpc = "done"
   /\ p2 # "in"
